@@ -85,7 +85,7 @@ def top_attr(path):
 def compare(p, old_kind, new_kind, root_is_term):
     """-> list of (sig, detail)"""
     out = []
-    src = sources(old_kind)
+    src = dict(sources(old_kind), **p.get("extra_sources", {}))
     prog_full = dict(p, sources=src)
     new_spec = NEW_SPECS[new_kind]
     try:
@@ -273,6 +273,18 @@ SUB_T = {"cls": "inherit", "sources": {}, "steps": [["from_", [["src", "T"]]], [
 J = lambda how, then: ["join", [["src", "T"], ["enum", "JoinType", how]], {}, then]  # noqa: E731
 
 
+SUB_U = {"cls": "inherit", "sources": {}, "steps": [["from_", [["src", "U"]]], ["select", [["col", "U", "a"]]]]}
+# sources that are themselves queries over OLD, addressed through their own alias: their fields must stay theirs
+XSRC = {"SU": ["sub", {"cls": "inherit", "sources": {}, "steps": SUB_T["steps"] + [["union", [["q", SUB_U]]]]}, "su"],
+        "SQ": ["sub", SUB_T, "sq"]}
+XTEMPLATES = {
+    "setop_source_from_field": [["from_", [["src", "SU"]]], ["select", [["col", "SU", "a"]]], ["where", [["gt", ["col", "SU", "a"], ["raw", 1]]]]],
+    "setop_source_join_field": [["from_", [["src", "U"]]], ["join", [["src", "SU"], ["enum", "JoinType", "inner"]], {}, ["on", [["eq", UA, ["col", "SU", "a"]]]]], ["select", [UA, ["col", "SU", "a"]]]],
+    "subquery_source_from_field": [["from_", [["src", "SQ"]]], ["select", [["col", "SQ", "a"]]], ["orderby", [["col", "SQ", "a"]]]],
+    "subquery_source_join_field": [["from_", [["src", "U"]]], ["join", [["src", "SQ"], ["enum", "JoinType", "left"]], {}, ["on", [["eq", UA, ["col", "SQ", "a"]]]]], ["select", [["col", "SQ", "a"]]]],
+}
+
+
 def templates(cls):
     t = {
         "from": [["from_", [["src", "T"]]], ["select", [UA]]],
@@ -300,6 +312,7 @@ def templates(cls):
         "setop": [["from_", [["src", "T"]]], ["select", [A]], ["union", [["q", SUB_T]]]],
         "force_index_for_update": [["from_", [["src", "T"]]], ["select", [A]], ["force_index", [["py", "ix"]]], ["for_update", []]],
     }
+    t.update(XTEMPLATES)
     if cls == "postgresql":
         t["returning"] = [["update", [["src", "T"]]], ["set", [["py", "a"], ["raw", 1]]], ["returning", [A, ["py", "b"]]]]
         t["returning_insert"] = [["into", [["src", "T"]]], ["insert", [["raw", 1]]], ["returning", [["star", "T"]]]]
@@ -425,6 +438,8 @@ def run_shard(shard):
         for name, steps in templates(cls).items():
             for old_kind, new_kind in PAIRS:
                 p = {"cls": cls, "sources": {}, "steps": steps, "kind": "slot:" + name}
+                if name in XTEMPLATES:
+                    p["extra_sources"] = XSRC
                 case = {"mode": "stmt", "program": p, "old": old_kind, "new": new_kind}
                 res = compare(p, old_kind, new_kind, False)
                 if res and res[0][0] == "__build__":
